@@ -73,7 +73,7 @@ TOEnd ==
 Internal ==
     /\ l <= Len(Rec0)
     /\ \/ \E t \in Wakers : open[t] /\ (WLoopA(t) \/ WCasNext(t) \/ WCasHead(t) \/ WSwap(t) \/ WNotify(t))
-       \/ oopen /\ (OTakeCas \/ OIter \/ ODropLoad \/ ODropStore \/ ODone)
+       \/ oopen /\ (OTakeCas \/ OIter \/ ODropLoad \/ ODropStore \/ ODone \/ OHasLoad \/ ODiscardLoad)
     /\ UNCHANGED <<l, open, oopen>>
 
 TraceNext == Reset \/ TWStart \/ TWEnd \/ TOStart \/ TOEnd \/ Internal
